@@ -143,6 +143,8 @@ def parse_record(im, off):
     if 33 + ln > n:
         raise Bad('identifier does not fit its record at %d' % off)
     name = im.cbytes(off + 33, ln)
+    if ln == 0:
+        im.bad('directory record without an identifier at %d (ECMA-119 9.1.10: at least one byte)' % off)
     e = Entry(name, bool(flags & 2), extent, length, flags, off, n)
     su = 33 + ln + (1 if ln % 2 == 0 else 0)
     if ln % 2 == 0 and su <= n and im.byte(off + 33 + ln) != 0:
